@@ -14,7 +14,7 @@ use vpmodel::spec::{chain_from_scripts, ChainSpec};
 pub const DEF: PropDef = PropDef {
     id: "C17",
     level: "exploration",
-    rule: "chains of 40..400 one-transaction blocks spread over 1..300 blk files in generated ways: disjoint height spans, overlapping spans (a window of k files active at a time), two or three files interleaved in height, random assignment; optional --start/--end inside a file; 40% of the directories are XOR-obfuscated. Oracle 1 (descriptor limit): N0 := smallest RLIMIT_NOFILE under which the single-file layout of the same chain and callback succeeds (binary search); the multi-file layout must succeed under N0 + (w-1), w = the model's maximum, over processed heights h, of the number of files that were touched at or before h and still hold a block of height >= h, and produce the same output. Oracle 2 (trace): under strace the number of simultaneously open blk*.dat descriptors never exceeds w, and every block is still delivered after a file was closed and reopened. Non-trivial = more blk files than the descriptor limit N0+(w-1) under which the run had to succeed, with w <= 3; distinct by layout hash.",
+    rule: "chains of 40..400 one-transaction blocks spread over 1..300 blk files in generated ways: disjoint height spans, overlapping spans (a window of k files active at a time), two or three files interleaved in height, random assignment; optional --start/--end inside a file; 40% of the directories are XOR-obfuscated; runs at verbosity 0, -v, -vv and -vvv (logging must not open or keep files). Oracle 1 (descriptor limit): N0 := smallest RLIMIT_NOFILE under which the single-file layout of the same chain and callback succeeds (binary search); the multi-file layout must succeed under N0 + (w-1), w = the model's maximum, over processed heights h, of the number of files that were touched at or before h and still hold a block of height >= h, and produce the same output. Oracle 2 (trace): under strace the number of simultaneously open blk*.dat descriptors never exceeds w, and every block is still delivered after a file was closed and reopened. Non-trivial = more blk files than the descriptor limit N0+(w-1) under which the run had to succeed, with w <= 3; distinct by layout hash.",
     assumptions: &["the descriptors the tool needs besides blk files (LevelDB, dump files, stdio) do not depend on the blk layout: calibrated per case on the single-file layout"],
     run,
     replay,
@@ -43,12 +43,15 @@ pub struct Case {
     /// the directory is XOR-obfuscated (a reopened file must still be decoded)
     #[serde(default)]
     pub xor: bool,
+    /// -v / -vv / -vvv: logging must not change which files are open
+    #[serde(default)]
+    pub verbose: u8,
 }
 
 pub fn strategy(tier: Tier) -> BS<Case> {
     let maxb = if tier == Tier::Quick { 260u16 } else { 600 };
-    (40u16..maxb, prop_oneof![1 => 1u16..4, 6 => 30u16..300], prop_oneof![4 => Just(Shape::Disjoint), 3 => (2u8..4).prop_map(Shape::Overlap), 3 => (2u8..4).prop_map(Shape::Interleave), 1 => proptest::collection::vec(any::<u16>(), 4..40).prop_map(Shape::Random)], proptest::sample::select(vec![Callback::CsvDump, Callback::SimpleStats, Callback::UnspentCsvDump]), proptest::option::weighted(0.3, any::<u16>()), proptest::option::weighted(0.3, any::<u16>()), any::<bool>(), proptest::bool::weighted(0.4))
-        .prop_map(|(nblocks, nfiles, shape, cb, start, end, reverse_order, xor)| Case { nblocks, nfiles: nfiles.min(nblocks), shape, cb, start, end, reverse_order, xor })
+    (40u16..maxb, prop_oneof![1 => 1u16..4, 6 => 30u16..300], prop_oneof![4 => Just(Shape::Disjoint), 3 => (2u8..4).prop_map(Shape::Overlap), 3 => (2u8..4).prop_map(Shape::Interleave), 1 => proptest::collection::vec(any::<u16>(), 4..40).prop_map(Shape::Random)], proptest::sample::select(vec![Callback::CsvDump, Callback::SimpleStats, Callback::UnspentCsvDump]), proptest::option::weighted(0.3, any::<u16>()), proptest::option::weighted(0.3, any::<u16>()), any::<bool>(), proptest::bool::weighted(0.4), prop_oneof![5 => Just(0u8), 1 => Just(1u8), 2 => Just(2u8), 1 => Just(3u8)])
+        .prop_map(|(nblocks, nfiles, shape, cb, start, end, reverse_order, xor, verbose)| Case { nblocks, nfiles: nfiles.min(nblocks), shape, cb, start, end, reverse_order, xor, verbose })
         .boxed()
 }
 
@@ -124,6 +127,7 @@ pub fn check(c: &Case) -> Verdict {
     let mut o = RunOpts::new(built.coin, c.cb);
     o.start = if s > 0 { Some(s) } else { None };
     o.end = end;
+    o.verbose = c.verbose;
     // 1. calibrate on the single-file layout
     let mut single = LayoutSpec::canonical();
     single.xor = layout(c).xor;
